@@ -57,7 +57,7 @@ class Tr2(Tr):
                 and (is_none(e.left) or is_none(e.comparators[0])):
             other = e.comparators[0] if is_none(e.left) else e.left
             t, ty = self.expr(other)
-            if ty not in ('onum', 'obool', 'olist'):
+            if ty not in ('onum', 'obool', 'olist', 'otok'):
                 raise Untranslatable('None test on a non-optional: ' + ast.unparse(e))
             pos = isinstance(e.ops[0], (ast.Is, ast.Eq))
             return (f'{t}.isNone' if pos else f'{t}.isSome'), 'bool'
@@ -246,6 +246,10 @@ class FnTr:
                 term, ty = f'(some {term} : Option Bool)', 'obool'
             elif dty in ('onum', 'obool') and ty == 'none':
                 term, ty = f'(none : Option {"Int" if dty == "onum" else "Bool"})', dty
+            elif dty == 'otok' and ty == 'tok':          # an opaque value that may be None
+                term, ty = f'(some {term})', 'otok'
+            elif dty == 'otok' and ty == 'none':
+                term, ty = 'none', 'otok'
             elif dty != ty:
                 raise Untranslatable(f'assignment changes the type of {key}: {dty} := {ty}')
         else:
